@@ -347,13 +347,21 @@ def obs_c02(case):
     history.run(case.get("hist"))
     msg, out, _ = parse_payload(m, cls, mid, pbf, P)
     ev = {"prop": case.get("prop", "C02"), "m": m, "cls": cls, "id": mid, "pbf": pbf, "P": list(P), "intended": lay["name"],
-          "out": out, "identity": "", "attrs": []}
+          "out": out, "identity": "", "attrs": [], "str": "", "strok": 0, "ftok": []}
     if msg is not None:
         try:
             ev["identity"] = msg.identity
         except Exception as ex:  # noqa: BLE001
             ev["identity"] = "err:" + type(ex).__name__
         ev["attrs"] = project_attrs(msg, lay, P, case.get("cfgtypes"))
+        # spec growth (UbxStr): the printable form, with Python's rendering of float values supplied as opaque tokens
+        try:
+            s = str(msg)
+            ok = s.isascii() and all(32 <= ord(c) < 127 for c in s) and len(s) < 20000
+            ev["str"], ev["strok"] = (s if ok else ""), (1 if ok else 0)
+            ev["ftok"] = [[k, str(v)] for k, v in vars(msg).items() if not k.startswith("_") and isinstance(v, float)] if ok else []
+        except Exception as ex:  # noqa: BLE001 - judged by C08, not here
+            ev["str"], ev["strok"], ev["ftok"] = "err:" + type(ex).__name__, 0, []
     return ev
 
 
